@@ -14,6 +14,7 @@
 (* A PROGRAM P is a record                                                 *)
 (*   params : sequence of [has, v]          (default value if has)         *)
 (*   sites  : sequence of [kind, fn, args, kw, active, unpack, sub, setup] *)
+(*            (setup: computed once per DAG object; also inside nested DAGs)*)
 (*            kind "call" (fn names a function), "sub" (nested DAG sub)    *)
 (*   ret    : [shape, refs, keys]  shape single / tuple / list / dict /    *)
 (*            none                                                         *)
@@ -21,7 +22,7 @@
 (* A REFERENCE is [c, v, n, path]: c = "const" (v), "param" (n), "site"    *)
 (* (n, then the key path: each key [k |-> "i"/"s", i, x]), "none".         *)
 (***************************************************************************)
-EXTENDS Naturals, Integers, Sequences, FiniteSets
+EXTENDS Naturals, Integers, Sequences, FiniteSets, TLC
 
 V(k, i, s, x, ks) == [k |-> k, i |-> i, s |-> s, x |-> x, ks |-> ks]
 VInt(n) == V("i", n, <<>>, "", <<>>)
@@ -41,12 +42,6 @@ Truthy(v) == CASE v.k \in {"i", "b"} -> v.i # 0
                [] v.k \in {"t", "l", "d"} -> Len(v.s) > 0
                [] OTHER -> FALSE
 
-\* the value with every leaf replaced by None (outputs of a deactivated nested DAG)
-RECURSIVE Blank(_)
-Blank(v) == IF v.k \in {"t", "l"} THEN V(v.k, 0, [j \in 1..Len(v.s) |-> Blank(v.s[j])], "", <<>>)
-            ELSE IF v.k = "d" THEN VDict(v.ks, [j \in 1..Len(v.s) |-> Blank(v.s[j])])
-            ELSE VNone
-
 \* obj[key]...: the indexing the user wrote
 KeyPos(ks, x) == IF \E j \in 1..Len(ks) : ks[j] = x THEN CHOOSE j \in 1..Len(ks) : ks[j] = x ELSE 0
 RECURSIVE Index(_, _)
@@ -60,6 +55,11 @@ Index(v, path) ==
        ELSE VErr
 
 IntLike(v) == v.k = "i"
+\* Python's d1 | d2: the keys of d1 in their order, then the new keys of d2; where both have a key, d2's value
+DictMerge(p, q) ==
+  LET extra == SelectSeq(q.ks, LAMBDA x : KeyPos(p.ks, x) = 0)
+      ks == p.ks \o extra
+  IN VDict(ks, [j \in 1..Len(ks) |-> IF KeyPos(q.ks, ks[j]) # 0 THEN q.s[KeyPos(q.ks, ks[j])] ELSE p.s[KeyPos(p.ks, ks[j])]])
 \* the plain callables
 Apply(fn, a) ==
   CASE fn = "mix"    -> VTup(a)
@@ -67,7 +67,13 @@ Apply(fn, a) ==
     [] fn = "mkdict" -> VDict(<<"a", "b">>, <<a[2], VTup(<<a[1], a[2]>>)>>)
     [] fn = "mklist" -> VList(<<a[2], a[3], a[1]>>)
     [] fn = "ident"  -> a[1]
-    [] fn = "add"    -> IF IntLike(a[1]) /\ IntLike(a[2]) THEN VInt(a[1].i + a[2].i) ELSE VErr
+    [] fn = "label"  -> IF IntLike(a[1]) THEN VStr("n" \o ToString(a[1].i)) ELSE VErr
+    \* + on two ints, or the concatenation of two strings / tuples / lists (which does not commute)
+    [] fn = "add"    -> IF IntLike(a[1]) /\ IntLike(a[2]) THEN VInt(a[1].i + a[2].i)
+                        ELSE IF a[1].k = a[2].k /\ a[1].k \in {"t", "l"} THEN V(a[1].k, 0, a[1].s \o a[2].s, "", <<>>)
+                        ELSE IF a[1].k = "s" /\ a[2].k = "s" THEN VStr(a[1].x \o a[2].x)
+                        ELSE VErr
+    [] fn = "bor"    -> IF a[1].k = "d" /\ a[2].k = "d" THEN DictMerge(a[1], a[2]) ELSE VErr
     [] fn = "sub"    -> IF IntLike(a[1]) /\ IntLike(a[2]) THEN VInt(a[1].i - a[2].i) ELSE VErr
     [] fn = "mul"    -> IF IntLike(a[1]) /\ IntLike(a[2]) THEN VInt(a[1].i * a[2].i) ELSE VErr
     [] fn = "lt"     -> IF IntLike(a[1]) /\ IntLike(a[2]) THEN VBool(a[1].i < a[2].i) ELSE VErr
@@ -93,48 +99,63 @@ Resolve(r, env, args) ==
 AnyErr(q) == \E j \in 1..Len(q) : IsErr(q[j])
 
 (***************************************************************************)
-(* EvalProg(P, args, pre, off) = [val, exec, err]:                         *)
+(* EvalProg(P, args, pre, off, mode) = [val, exec, err]:                   *)
 (*   val   value the body returns                                          *)
 (*   exec  set of executed call sites, each a path (pre \o <<j>>)          *)
 (*   err   the plain body raises (outside the equivalence, I4)             *)
-(* off = the body belongs to a deactivated nested DAG: nothing executes,   *)
-(* every site yields None.                                                 *)
+(* off = the body belongs to a deactivated nested DAG: none of its non-    *)
+(* setup call sites executes, each yields None, and ALL its outputs are    *)
+(* None (property C10) - also a parameter or a setup result it hands       *)
+(* straight back.  Setup call sites belong to the DAG object, not to the   *)
+(* call: they execute (once) whether or not the nested DAG is active.      *)
+(* mode = "letter" is the property.  Two variant readings exist only so    *)
+(* that DfCheck can tell two recorded findings from any other wrong        *)
+(* outcome: "keep" - a deactivated nested DAG still shows a setup result   *)
+(* it returns directly; "index" - an output of a deactivated nested DAG    *)
+(* that is an indexed / unpacked part of an inner result is obtained by    *)
+(* indexing the None the inner node yielded (which raises).                *)
 (***************************************************************************)
-RECURSIVE EvalProg(_, _, _, _)
-RECURSIVE EvalSites(_, _, _, _, _, _, _, _)
+RECURSIVE EvalProg(_, _, _, _, _)
+RECURSIVE EvalSites(_, _, _, _, _, _, _, _, _)
 
-EvalSites(P, args, j, env, exec, err, pre, off) ==
+EvalSites(P, args, j, env, exec, err, pre, off, mode) ==
   IF j > Len(P.sites) THEN [env |-> env, exec |-> exec, err |-> err]
   ELSE
   LET s == P.sites[j]
       pos == [x \in 1..Len(s.args) |-> Resolve(s.args[x], env, args)]
       kws == [x \in 1..Len(s.kw) |-> Resolve(s.kw[x].ref, env, args)]
       flag == Resolve(s.active, env, args)
-      act == ~off /\ (s.active.c = "none" \/ Truthy(flag))
+      act == IF s.setup THEN TRUE ELSE ~off /\ (s.active.c = "none" \/ Truthy(flag))
       inputErr == AnyErr(pos) \/ AnyErr(kws) \/ (s.active.c # "none" /\ IsErr(flag))
   IN
   IF s.kind = "sub"
   THEN LET Q == P.subs[s.sub]
            bound == [p \in 1..Len(Q.params) |->
                        IF p <= Len(pos) THEN pos[p] ELSE IF Q.params[p].has THEN Q.params[p].v ELSE VErr]
-           r == EvalProg(Q, bound, pre \o <<j>>, ~act)
+           r == EvalProg(Q, bound, pre \o <<j>>, off \/ ~act, mode)
            bad == inputErr \/ Len(pos) > Len(Q.params) \/ AnyErr(bound) \/ r.err
-       IN EvalSites(P, args, j + 1, Append(env, IF bad THEN VErr ELSE r.val), exec \cup r.exec, err \/ bad, pre, off)
+       IN EvalSites(P, args, j + 1, Append(env, IF bad THEN VErr ELSE r.val), exec \cup r.exec, err \/ bad, pre, off, mode)
   ELSE LET raw == IF act THEN Apply(s.fn, pos \o kws) ELSE VNone
            shapeBad == act /\ s.unpack > 0 /\ ~(raw.k \in {"t", "l"} /\ Len(raw.s) = s.unpack)
            bad == inputErr \/ IsErr(raw) \/ shapeBad
        IN EvalSites(P, args, j + 1, Append(env, IF bad THEN VErr ELSE raw),
-                    IF act THEN exec \cup {pre \o <<j>>} ELSE exec, err \/ bad, pre, off)
+                    IF act THEN exec \cup {pre \o <<j>>} ELSE exec, err \/ bad, pre, off, mode)
 
-EvalProg(P, args, pre, off) ==
-  LET r == EvalSites(P, args, 1, <<>>, {}, FALSE, pre, off)
-      outs == [x \in 1..Len(P.ret.refs) |-> Resolve(P.ret.refs[x], r.env, args)]
+EvalProg(P, args, pre, off, mode) ==
+  LET r == EvalSites(P, args, 1, <<>>, {}, FALSE, pre, off, mode)
+      Out(ref) == IF ~off THEN Resolve(ref, r.env, args)
+                  \* the outputs of a nested DAG called in here were shaped by its own (deactivated) evaluation
+                  ELSE IF ref.c = "site" /\ ref.n <= Len(P.sites) /\ P.sites[ref.n].kind = "sub" THEN Resolve(ref, r.env, args)
+                  ELSE IF mode = "keep" /\ ref.c = "site" /\ ref.n <= Len(P.sites) /\ P.sites[ref.n].setup THEN Resolve(ref, r.env, args)
+                  ELSE IF mode = "index" /\ ref.c = "site" /\ ref.n <= Len(P.sites) /\ ~P.sites[ref.n].setup THEN Resolve(ref, r.env, args)
+                  ELSE VNone
+      outs == [x \in 1..Len(P.ret.refs) |-> Out(P.ret.refs[x])]
       val == CASE P.ret.shape = "single" -> outs[1]
                [] P.ret.shape = "tuple" -> VTup(outs)
                [] P.ret.shape = "list" -> VList(outs)
                [] P.ret.shape = "dict" -> VDict(P.ret.keys, outs)
                [] OTHER -> VNone
-  IN [val |-> IF off THEN Blank(val) ELSE val, exec |-> r.exec, err |-> r.err \/ AnyErr(outs)]
+  IN [val |-> val, exec |-> r.exec, err |-> r.err \/ AnyErr(outs)]
 
 \* a call of the outermost DAG: omitted arguments take their defaults
 BindTop(P, given) == [p \in 1..Len(P.params) |->
@@ -142,6 +163,8 @@ BindTop(P, given) == [p \in 1..Len(P.params) |->
 Eval(P, given) ==
   LET args == BindTop(P, given) IN
   IF AnyErr(args) \/ Len(given) > Len(P.params)
-  THEN [val |-> VErr, exec |-> {}, err |-> TRUE, argerr |-> TRUE]
-  ELSE LET r == EvalProg(P, args, <<>>, FALSE) IN [val |-> r.val, exec |-> r.exec, err |-> r.err, argerr |-> FALSE]
+  THEN [val |-> VErr, valK |-> VErr, errI |-> TRUE, exec |-> {}, err |-> TRUE, argerr |-> TRUE]
+  ELSE LET r == EvalProg(P, args, <<>>, FALSE, "letter") IN
+       [val |-> r.val, valK |-> EvalProg(P, args, <<>>, FALSE, "keep").val, errI |-> EvalProg(P, args, <<>>, FALSE, "index").err,
+        exec |-> r.exec, err |-> r.err, argerr |-> FALSE]
 =============================================================================
